@@ -575,7 +575,24 @@ func buildScenario(r *hutil.Rng, i int, stream string, prop string) (atrun.Scena
 	}
 	t := mkTable(r, variant, pred == "lockkey.separator")
 	onlyCare := r.Chance(1, 2)
-	sc := atrun.Scenario{Name: fmt.Sprintf("%s-%s-%d", prop, strings.ReplaceAll(stream, ":", "-"), i), Setup: append([]string{t.ddl}, t.setup...)}
+	setup := append([]string{t.ddl}, t.setup...)
+	qualified := pred == "" && variant != 5 && r.Chance(1, 8)
+	if qualified {
+		// the statements address `oth`.<table>: a same-named table with the same keys but other contents lives in the
+		// connection's own schema
+		for _, q := range append([]string{t.ddl}, t.setup...) {
+			q = strings.Replace(q, "CREATE TABLE "+t.name, "CREATE TABLE oth."+t.name, 1)
+			setup = append(setup, strings.Replace(q, "INSERT INTO "+t.name, "INSERT INTO oth."+t.name, 1))
+		}
+		for c := range t.cols {
+			if !t.isPK(c) && t.cols[c].Kind == "int" {
+				setup = append(setup, "UPDATE "+t.name+" SET "+t.cols[c].Name+" = "+t.cols[c].Name+" + 500")
+				break
+			}
+		}
+		t.name = "oth." + t.name
+	}
+	sc := atrun.Scenario{Name: fmt.Sprintf("%s-%s-%d", prop, strings.ReplaceAll(stream, ":", "-"), i), Setup: setup}
 	sc.Config.OnlyCareUpdateColumns = &onlyCare
 	meta := Meta{Stream: stream, Table: t.name, Cols: t.cols, PK: t.pk, AutoInc: t.auto, OnlyCare: onlyCare}
 	body := []atrun.Step{{Op: "dump", Tables: []string{t.name}}}
@@ -668,6 +685,11 @@ func buildScenario(r *hutil.Rng, i int, stream string, prop string) (atrun.Scena
 			}
 			sm.MatchPath = fmt.Sprintf("0.%d", len(body))
 			body = append(body, atrun.Step{Op: "query", Via: "bare", NoCtx: true, SQL: sel, Args: margs})
+		}
+		if qualified {
+			sm.Expect = "reject-db" // a schema-qualified table is outside what the executors describe: refused, or exact
+		} else if sm.Kind != "upsert" && !strings.Contains(stream, "finding") && r.Chance(1, 6) {
+			sql = strings.Replace(sql, " "+t.name, " `"+t.name+"`", 1) // back-quoted table name
 		}
 		sm.DumpPre = fmt.Sprintf("0.%d", lastDump(body))
 		sm.Path = fmt.Sprintf("0.%d", len(body))
